@@ -20,7 +20,7 @@ if [ ! -d $BASE/repo ]; then git -C /repo worktree add -q --detach $BASE/repo HE
 if [ "${ISO_FROM:-head}" = "worktree" ]; then
   rsync -a --delete --exclude target --exclude .git --exclude .run --exclude replays --exclude evidence /verif/ $BASE/verif/
 else
-  rm -rf $BASE/verif.new && mkdir -p $BASE/verif.new $BASE/verif && git -C /verif archive HEAD | tar -x -C $BASE/verif.new
+  rm -rf $BASE/verif.new && mkdir -p $BASE/verif.new $BASE/verif && git -C /verif archive ${ISO_REV:-HEAD} | tar -x -C $BASE/verif.new
   rsync -rlpc --delete --exclude target --exclude .run --exclude replays --exclude evidence $BASE/verif.new/ $BASE/verif/
   rm -rf $BASE/verif.new
 fi
